@@ -348,6 +348,12 @@ func c13Run(chain *c13kit.Chain, c c13Case) (res c13Result) {
 	if kept > 0 {
 		diag("bad_peer_removed_from_scheduler_but_still_connected")
 	}
+	if st.LastBlockHeight < c13kit.Tip && c.Strategy.NumLies() == 0 {
+		res.Key = "blockchain/v2:honest-peers-only-and-tip-not-reached"
+		res.What = fmt.Sprintf("every answer was the canonical block, yet block sync ended at height %d of %d", st.LastBlockHeight, c13kit.Tip)
+		res.Outcome = "violation"
+		return
+	}
 	if st.LastBlockHeight < c13kit.Tip {
 		// v2 finishes as soon as its height reaches the greatest height among the peers it still has; when the peers of
 		// the top heights are removed it hands over early and consensus has to fetch the rest.
